@@ -58,7 +58,7 @@ class Fn:
         """the real object an expression of Names / Attributes denotes (never evaluates calls)"""
         if isinstance(node, ast.Name):
             if node.id in self.env:
-                if self.env[node.id][1] == "selfcls":
+                if self.env[node.id][1] in ("selfcls", "wrapper"):      # `cls._x` / `self._x`: looked up on the owner class
                     return self.owner       # the `cls` of a classmethod (subclasses do not override the functions translated here)
                 raise Untranslatable("local %s used as a global" % node.id)
             g = self.func.__globals__
@@ -121,6 +121,12 @@ class Fn:
         if isinstance(node, ast.Name) and node.id in self.env:
             ln, t = self.env[node.id]
             return ln, t, False
+        if isinstance(node, ast.Name):
+            # a module-level text constant, resolved through the real module to its value
+            c = self.resolve(node)
+            if type(c) is str:
+                return lstr(c), "str", False
+            raise Untranslatable("global %s is not a text constant" % node.id)
         if isinstance(node, ast.Attribute):
             # wrapper.exception / exc.args
             if node.attr == "args":
@@ -189,10 +195,13 @@ class Fn:
                 raise Untranslatable("source of helper %s" % target.__name__)
             body = [st for st in hnode.body if not (isinstance(st, ast.Expr) and isinstance(st.value, ast.Constant))]
             ha = hnode.args
-            if isinstance(hnode, ast.FunctionDef) and len(body) == 1 and isinstance(body[0], ast.Return) and body[0].value is not None \
-                    and not (ha.vararg or ha.kwarg or ha.kwonlyargs or ha.defaults or ha.posonlyargs) and len(ha.args) == len(node.args):
+            # body: pure single-assignment locals (substituted by their value), then one `return <expr>`
+            shape_ok = isinstance(hnode, ast.FunctionDef) and body and isinstance(body[-1], ast.Return) and body[-1].value is not None \
+                and all(isinstance(st, ast.Assign) and len(st.targets) == 1 and isinstance(st.targets[0], ast.Name) for st in body[:-1]) \
+                and len({st.targets[0].id for st in body[:-1]}) == len(body) - 1
+            if shape_ok and not (ha.vararg or ha.kwarg or ha.kwonlyargs or ha.defaults or ha.posonlyargs) and len(ha.args) == len(node.args):
                 sub = Fn.__new__(Fn)
-                sub.tr, sub.func, sub.owner, sub.ret, sub.extra = self.tr, target, None, None, self.extra
+                sub.tr, sub.func, sub.owner, sub.ret, sub.extra = self.tr, target, self.owner, None, self.extra
                 sub.depth = self.depth + 1
                 sub.env, sub.lines, sub.mutated, sub.nlocals = {}, [], set(), 0
                 for prm, a in zip(ha.args, node.args):
@@ -200,7 +209,14 @@ class Fn:
                     if m:
                         raise Untranslatable("helper %s called with an effectful argument" % target.__name__)
                     sub.env[prm.arg] = (text, t)
-                return sub.expr(body[0].value)
+                for st in body[:-1]:
+                    if st.targets[0].id in sub.env:
+                        raise Untranslatable("helper %s reassigns %s" % (target.__name__, st.targets[0].id))
+                    text, t, m = sub.expr(st.value)
+                    if m:
+                        raise Untranslatable("helper %s: effectful local" % target.__name__)
+                    sub.env[st.targets[0].id] = (text, t)
+                return sub.expr(body[-1].value)
         raise Untranslatable("call of %s" % ast.unparse(f))
 
     def test(self, node):
